@@ -11,6 +11,7 @@
 # WITHOUT WARRANTIES OR CONDITIONS OF ANY KIND, either express or implied.
 # See the License for the specific language governing permissions and
 # limitations under the License.
+import re
 from dataclasses import dataclass
 from functools import cached_property
 from pathlib import PurePosixPath
@@ -78,7 +79,9 @@ class ObjcBaseCommentModel(BaseModel):
     @property
     def deprecated(self) -> str:
         if isinstance(self.decl.deprecated, str):
-            return 'DEPRECATED_MSG_ATTRIBUTE("' + self.decl.deprecated.replace('\\', r'\\').replace('\n', r'\n').replace('"', r'\"') + '")'
+            # characters that str.splitlines() treats as line breaks must not reach the literal (the indent filter would break it)
+            text = re.sub('[\r\x0b\x0c\x1c\x1d\x1e\x85\u2028\u2029]', ' ', self.decl.deprecated)
+            return 'DEPRECATED_MSG_ATTRIBUTE("' + text.replace('\\', r'\\').replace('\n', r'\n').replace('"', r'\"') + '")'
         elif self.decl.deprecated is True:
             return "DEPRECATED_ATTRIBUTE"
         else:
